@@ -12,7 +12,7 @@ import lib_lsm as L
 import vlib
 
 
-def body(c, prop="C12", kinds='{"val", "del"}', nvks=(1,), invariants=("ReadStable", "Retention", "Structure", "NoInvention")):
+def body(c, prop="C12", kinds='{"val", "del"}', nvks=(1,), invariants=("ReadStable", "Retention", "Structure", "NoInvention", "AgeOrdered")):
     q = c.quick
     rnd = random.Random(c.seed)
     base = dict(L.BASE, Kinds=kinds)
@@ -25,6 +25,15 @@ def body(c, prop="C12", kinds='{"val", "del"}', nvks=(1,), invariants=("ReadStab
                 # retention is decided per key: with all four entry kinds the quick model check uses one key
                 consts.update(Keys="{1}", MaxTs="4", MaxId="7")
         L.model_check(c, "picks NVK=%d" % nvk, consts, invariants, timeout=1800)
+    if prop == "C12":
+        # the base level: without the clamp at the first non-empty level (code before the repair) and with
+        # the rejected repair (skipped levels only counted as overlapping) the model has to show the loss
+        small = dict(base, NVK="1", Keys="{1}", MaxTs="3", MaxId="5")
+        L.model_must_fail(c, "base level may skip non-empty levels (unrepaired)", dict(small, BaseSkip='"skip"'), "ReadStable")
+        if not q:
+            L.model_must_fail(c, "skipped levels counted as overlapping (rejected repair)", dict(small, BaseSkip='"checked"'), "ReadStable")
+        L.scenario_baseflip(c, prop)
+        L.size_walks(c, prop, 24 if q else 1200)
     # 2. state injection, L0->Lbase and Li->Li+1 (MinL0L0 irrelevant for these families)
     allcases = []
     for nvk in nvks:
@@ -91,8 +100,9 @@ def body(c, prop="C12", kinds='{"val", "del"}', nvks=(1,), invariants=("ReadStab
         c.sample(L.describe(x))
     c.assumptions += ["layouts are built by injecting tables (db.VerifInjectTable) instead of replaying the writes that lead to them; "
                       "only layouts reachable in LSM.tla are injected",
-                      "for model-sized data the production picker's base level is the last level; L0->Lbase cases are "
-                      "replayed only where the specification's choice agrees",
+                      "for model-sized data the production base level is the first non-empty level (else the last level); "
+                      "L0->Lbase cases are replayed only where the specification's choice agrees; the size-dependent "
+                      "movement of the base level is exercised by the lsmprobe scenario with real sizes",
                       "LmaxRewrite is checked at the specification level only (the production picker needs >= 10 MiB of stale data)"]
 
 
